@@ -149,6 +149,9 @@ func (l *InterceptingListener) getTlsConfigForClient(clientInfo *ClientInfo) fun
 				if err := proto.Unmarshal(reqBytes, serverCertsReq); err != nil {
 					return nil, fmt.Errorf("(%s) error unmarshaling common name value: %w", op, err)
 				}
+				// Skipping verification is a decision for the local fetch path
+				// only; never honor it when it arrives from the remote peer
+				serverCertsReq.SkipVerification = false
 				protoToReturn = p
 
 			default:
